@@ -194,9 +194,13 @@ class Engine:
             st.hyps.append(req(NS(pre_env)))
         # vacuity probe: the precondition (plus axioms) must not be refutable
         self.emit("probe:pre-satisfiable", "probe", st, z3.BoolVal(False), fdef.lineno, expect_fail=True)
+        entry = st.fork()
         outs = self.exec_block(fdef.body, st)
         for st2, out in outs:
             self.finish(st2, out, fdef)
+        # lemmas over the contract vocabulary (consequences callers use; proved here, from the entry assumptions only)
+        for lname, lf in contract.extra.get("lemmas", []):
+            self.emit(f"lemma:{lname}", "lemma", entry, lf(), fdef.lineno)
         return self.obls
 
     def finish(self, st, out, node):
@@ -528,6 +532,8 @@ class Engine:
                 st.hyps += getattr(new, "axioms", [])
 
     def fresh_like(self, old, hint):
+        if hasattr(old, "fresh_like"):
+            return old.fresh_like(hint)
         if isinstance(old, PyTuple):
             return PyTuple([self.fresh_like(x, hint) for x in old.items])
         if isinstance(old, PyEnumIter):
@@ -968,6 +974,11 @@ class Engine:
         return args, kwargs
 
     def call_method(self, recv, name, e, cx, recv_node):
+        ov = self.c.extra.get("callee_contracts", {}).get(name)
+        if ov is not None:
+            # call-site specific callee contract (weaker / differently abstracted, separately proved or assumed)
+            args, kwargs = self.eval_args(e, cx)
+            return self.call_contract(ov, [recv] + args, kwargs, cx, e, arg_nodes=[recv_node] + list(e.args))
         if isinstance(recv, PyOpt) and hasattr(recv.value, "m_" + name):
             # method of the payload of an Optional: AttributeError when it is None
             cx.raise_if(recv.is_none, "AttributeError")
